@@ -249,7 +249,7 @@ func termLeaves(t *Term, out map[string]bool) {
 
 func isChain(t *Term) bool {
 	switch t.Op {
-	case "param", "global":
+	case "param", "global", "fresh":
 		return true
 	case "field", "deref":
 		return isChain(t.Args[0])
